@@ -61,3 +61,19 @@ claim("C20", module="props.c20", category="proof",
            "CalculateIterationPoint verified under C02/C06",
       technique="contract-based deductive verification: constructor post-conditions chained with the evolvent contracts, z3",
       design_ref="DESIGN.md 5.C20")
+
+claim("C19", module="props.c19", category="proof",
+      text="Deductive proof of the container code of iOpt/method/search_data.py against ghost views (sequence view + position "
+           "map of the linked list, sorted-entry view of each queue): CharacteristicsQueue wrappers against the ASSUMED "
+           "depq.DEPQ contract; SearchData / SearchDataDualQueue __init__, InsertFirstDataItem, InsertDataItem (hinted and "
+           "hintless), FindDataItemByOneDimensionalPoint (loop invariant over the iterator protocol), __iter__/__next__, "
+           "RefillQueue (loop invariant), ClearQueue, GetCount, GetLastItem, GetDataItemWithMaxGlobalR: well-formedness "
+           "(order, links, positions, count) is an object invariant preserved by every operation, lookup returns the first "
+           "item to the right, a best request returns a maximal entry. Safety obligations (no None dereference, index in "
+           "range) included.",
+      note=PROOF_NOTE + "; depq.DEPQ is a dependency behind an assumed contract (bounded conformance run reported separately, "
+           "not counted as proof); 'bounded queue retains the highest-priority entries' is that assumed contract transported "
+           "through CharacteristicsQueue.Insert",
+      technique="contract-based deductive verification: object invariant over ghost sequence/multiset views, loop "
+                "invariants over the iterator protocol, frame conditions, z3 (quantifier instantiation with explicit triggers)",
+      design_ref="DESIGN.md 5.C19")
